@@ -4,17 +4,34 @@ import (
 	"fmt"
 	"os"
 
+	"verif/checks/c01http"
 	"verif/checks/c32"
 	"verif/checks/c33"
 	"verif/checks/c34"
+	"verif/checks/c37"
 	"verif/checks/c40"
+	"verif/mc"
 )
 
+// C01H is a self-test entry for the c01http helper (not a property id, not in
+// groups.d): VERIF_OUT=/tmp/x .build/bin/volhttp C01H quick
+func c01h() {
+	mc.Main("C01H", "exploration", "self-test of checks/c01http", func(r *mc.Run) {
+		if r.Replay != "" {
+			c01http.Replay(r)
+			return
+		}
+		c01http.Run(r)
+	})
+}
+
 var checks = map[string]func(){
-	"C32": c32.Main,
-	"C33": c33.Main,
-	"C34": c34.Main,
-	"C40": c40.Main,
+	"C01H": c01h,
+	"C32":  c32.Main,
+	"C33":  c33.Main,
+	"C34":  c34.Main,
+	"C37":  c37.Main,
+	"C40":  c40.Main,
 }
 
 func main() {
